@@ -126,6 +126,26 @@ package meta
 //@   loop 1 iteration [payload_taken_off_only_for_members_marked_now] diff.Payload != old(diff.Payload) ==> memberHeaderStored() && memberStatus() == statusAvailable
 //@   loop 1 iteration [payload_of_every_stored_physical_member_marked_now_is_taken_off] memberHeaderStored() && memberStatus() == statusAvailable && memberPhysical() ==> diff.Payload == old(diff.Payload) - int64(memberPayloadSize())
 
+// Every counter of the recount is derived from its own index: the first index walk of
+// syncContainerCounters is over the PHYSICAL index, the second over the ROOT index (one
+// root per entry, second range body), then the three type walks.
+//@ ghost field indexWalks(x int) int
+//@ callrule c02_recount_walks_each_index in syncContainerCounters
+//@   property C02
+//@   callee metabase.iterAttrVal
+//@   pureeffect
+//@   assigns indexWalks
+//@   requires [first_walk_is_over_the_physical_index] indexWalks(0) == 0 ==> a1 == object.FilterPhysical
+//@   requires [second_walk_is_over_the_root_index] indexWalks(0) == 1 ==> a1 == object.FilterRoot
+//@   requires [then_the_type_index] indexWalks(0) >= 2 ==> a1 == object.FilterType
+//@   defines indexWalks(0) == old(indexWalks(0)) + 1
+//@ func syncContainerCounters
+//@   property C02
+//@   valid indexWalks(0) == 0
+//@ func syncContainerCounters$2
+//@   property C02
+//@   ensures [one_root_per_root_index_entry] deref(rootCounter) == old(deref(rootCounter)) + 1
+
 // The recount must use the same meaning of the garbage counter as the live updates (above):
 // a garbage key counts only if it belongs to an object stored here. The third range body of
 // syncContainerCounters is the loop over the garbage keys.
